@@ -321,20 +321,25 @@ def pyEq : Val → Val → Bool
   | .dict _ kvs, .dict _ kvs' => kvs.length == kvs'.length && allKVIn kvs kvs'
   | .app f as ks, .app g bs ls => f == g && pyEqList as bs && pyEqKw ks ls
   | _, _ => false
+termination_by structural x => x
 def pyEqList : List Val → List Val → Bool
   | [], [] => true
   | x :: xs, y :: ys => pyEq x y && pyEqList xs ys
   | _, _ => false
+termination_by structural x => x
 def allIn : List Val → List Val → Bool
   | [], _ => true
   | x :: xs, ys => ys.any (fun y => pyEq x y) && allIn xs ys
+termination_by structural x => x
 def allKVIn : List (Val × Val) → List (Val × Val) → Bool
   | [], _ => true
   | (k, v) :: rest, kvs' => kvs'.any (fun q => pyEq k q.1 && pyEq v q.2) && allKVIn rest kvs'
+termination_by structural x => x
 def pyEqKw : List (String × Val) → List (String × Val) → Bool
   | [], [] => true
   | (n, x) :: xs, (m, y) :: ys => n == m && pyEq x y && pyEqKw xs ys
   | _, _ => false
+termination_by structural x => x
 end
 
 mutual
